@@ -55,6 +55,7 @@ LISTS = [
     # argument counts of the built-in functions
     ("text", "qsTr(\"S\", 42)", False), ("text", "qsTr(\"F: %1\", a.text)", False), ("handler", "a.text = qsTr(\"C\", a.ival, 1.5, a)", False), ("text", "qsTr()", False),
     ("text", "qsTr(\"ok\")", True), ("text", "qsTr(a.text)", False), ("ival", "Math.max(1, 2, 3)", False), ("ival", "Math.max(a.ival)", False), ("ival", "Math.min()", False),
+    ("handler", "console.log(a.poke())", False), ("handler", "console.warn(\"x\", a.act(1))", False), ("handler", "console.log(a.label())", True),
     ("flag", "a.text.isEmpty(1)", False), ("text", "qsTr(\"a\", \"b\")", False), ("handler", "console.log()", True), ("handler", "console.log(a.ival, a.text, a.flag)", True),
     # comments are no construct of their own: between the clauses of a switch as anywhere else
     ("ival", "{ switch (a.ival) {\n case 0: return 1;\n // between clauses\n case 1: return 2;\n /* before default */ default: return 3 } }", True),
